@@ -136,7 +136,7 @@ PROPS = {
         ],
         trusted_base=["GNU ld --wrap interposition of fopen/fread/fwrite/fseek/fflush/fclose; streams are unbuffered so a library write is a physical write",
                       "fault model: a failing call transfers nothing (engine fault) or half of the request (engine hp); a failing fclose still releases the descriptor"],
-        assumptions=["the workload library harness/workloads.h (31 workloads) is the quantification domain of the API-level enumeration; it is complete for that library, not for all programs"],
+        assumptions=["the workload library harness/workloads.h (32 workloads) is the quantification domain of the API-level enumeration; it is complete for that library, not for all programs"],
     ),
     "C06": dict(
         lean_props=["H4.Props.C06", "H4.Props.C06Fn"],
@@ -198,14 +198,14 @@ PROPS = {
     "C02": dict(
         lean_props=["H4.Props.C02"],
         engines=[
-            # cases 0..NWORKLOADS-1: the 31 workloads of workloads.h (prep file and file after the session); NWORKLOADS: odd-ndds Hnumber regression probe; above: random histories.
+            # cases 0..NWORKLOADS-1: the 32 workloads of workloads.h (prep file and file after the session); NWORKLOADS: odd-ndds Hnumber regression probe; above: random histories.
             # model=None: the engine itself runs `h4model read` (env H4MODEL) on every file it closes and compares the dumps
             E("fmt", "e_fmt.c", model=None, quick=dict(cases=229, chunk=8, timeout=1200), thorough=dict(cases=3029, seeds=4, chunk=40, timeout=3000)),
         ],
         trusted_base=["the independent reader lean/H4/Format.lean is written from the layout comments of hfile_priv.h, hblocks.c, hextelt.c, hcomp.c, hchunks.c, vio.c, vgp.c, vattr.c; where a comment and the code disagree (external element record, LBDR first-length note) the code was followed and the discrepancy is listed in REPORT.md",
                       "compressed payloads: RLE by rleTake (proved equal to the C05 decoder H4.Rle.dec on every stream that decoder accepts), skipping Huffman by H4.SkpHuff.decompress and n-bit by H4.NBit.readBack (both proved against their encoders in C05), deflate by the reader's own inflate (lean/H4/Inflate.lean, RFC 1950/1951, not proved; the Adler-32 trailer of every stream is verified); szip/jpeg/imcomp payloads are read structurally only (digest '?')",
                       "the library-side dump uses the library's own read path (Hfind, Hstartread/Hread, VSattach/Vattach structures); the comparison is therefore reader-vs-library, not reader-vs-ground-truth"],
-        assumptions=["files are those produced by the generators of engine fmt (13 workloads + random H/V/AN/GR/SD histories, ndds in {4,5,16}, cache on/off)",
+        assumptions=["files are those produced by the generators of engine fmt (32 workloads + random H/V/AN/GR/SD histories, ndds in {4,5,16}, cache on/off)",
                      "external elements name their file by an absolute path"],
     ),
     "C18": dict(
